@@ -166,10 +166,12 @@ def init_copy(ctx):
         return [m], {}
 
     def spec(ctx_, m, data=None):
+        # property-level: the machine starts as an exact copy of the prior (means, variances, floors, weights)
         u = m.fields["ubm"]
         G.spec_set_means(ctx_, m, u.fields["_means"])
-        G.spec_set_variances(ctx_, m, u.fields["_variances"])
-        G.spec_set_thresholds(ctx_, m, G.thr_of(u))
+        m.fields["_variance_thresholds"] = G.thr_of(u)
+        m.fields["_variances"] = u.fields["_variances"]
+        m.fields["_g_norms"] = G.gnorms_spec(u.fields["_variances"], G.Cc, G.Dd)
         G.spec_set_weights(ctx_, m, u.fields["_weights"])
     F = map_facts(I)
     cl = K.check_function(I, "gmm.GMMMachine.initialize_gaussians", build, spec, F, "C05.init.copy", state_names={0: "self"})
@@ -200,7 +202,8 @@ def ctrl(ctx):
 GROUPS = [guard(mstep_map), guard(limits), guard(sum_to_one), guard(init_copy), guard(loop_map)]
 CONTROLS = [ctrl]
 SHARED = []
-REPLAY = [("C05", "gmm_repro.py", "map_mstep", {}), ("C05.loop", "gmm_repro.py", "fit_loop", {"trainer": "map"})]
+REPLAY = [("C05.loop.body", "gmm_repro.py", "dask_isolated", {"trainer": "map"}), ("C05", "gmm_repro.py", "map_mstep", {}), ("C05.loop", "gmm_repro.py", "fit_loop", {"trainer": "map"})]
 TRUSTED = ["L-MAP-EM: EM on the relevance-penalised likelihood does not decrease it when the M-step maximises Q + log prior (means-only clause)",
            "np.where selects elementwise; values in unselected positions are irrelevant"]
 ASSUMPTIONS = ["prior machine valid (weights, variances, floors > 0; variances >= floors)", "relevance factor > 0 or fixed ratio given"]
+XCHECK = ['gmm']
